@@ -279,3 +279,25 @@ Definition C18_input_exists_case (arg : bytes) (out : list bytes) (exit : N) : b
   let ok := match classify_input false false true arg with InFile => true | _ => false end
             && list_eqb bytes_eqb out [B "a " ++ arg] && (exit =? 0) in
   (ok, ok, 0).
+
+(* ------------------------------------------------------------------ compact case terms
+   Large events (hundreds of matches, output of one event well over the 8 KiB / 64 KiB buffer sizes
+   of the standard library) would make the generated terms megabytes long.  Two decoders keep them
+   small; both are plain data expansion, evaluated inside the term.
+
+   rep_matches: a run of matches that differ only in their offset.
+   unfront:     stdout lines coded against the previous line (shared prefix length, middle part,
+                shared suffix length). *)
+Definition rep_matches (base len key : N) (data : bytes) (offsets : list N) : list smatch :=
+  map (fun off => {| m_base := base; m_offset := off; m_length := len; m_key := key; m_data := data |}) offsets.
+
+Definition lastn {A} (n : nat) (l : list A) : list A := skipn (length l - n) l.
+
+Fixpoint unfront_from (prev : bytes) (l : list (N * bytes * N)) : list bytes :=
+  match l with
+  | [] => []
+  | (p, mid, s) :: rest =>
+      let line := firstn (N.to_nat p) prev ++ mid ++ lastn (N.to_nat s) prev in
+      line :: unfront_from line rest
+  end.
+Definition unfront (l : list (N * bytes * N)) : list bytes := unfront_from [] l.
